@@ -1,4 +1,5 @@
 import FpVerif.Properties.C08
+import FpVerif.Properties.C08_Body
 #print axioms Fp.C08.dbuf_write_appends
 #print axioms Fp.C08.dbuf_read_prefix
 #print axioms Fp.C08.dbuf_fifo
@@ -15,3 +16,8 @@ import FpVerif.Properties.C08
 #print axioms Fp.C08.canon_ua
 #print axioms Fp.C08.end_to_end_headers_unaltered
 #print axioms Fp.C08.request_line_unaltered
+#print axioms Fp.C08.body_over_frames
+#print axioms Fp.C08.cutBody_flatten
+#print axioms Fp.C08.cutBody_length
+#print axioms Fp.C08.cutBody_bounds
+#print axioms Fp.C08.body_any_cuts
